@@ -60,7 +60,7 @@ pub fn run_prop<T, S>(
     let acc = RefCell::new(std::mem::take(res));
     let result = runner.run(&strategy, |v| {
         let j = to_json(&v);
-        ctx.note_current(&serde_json::json!({"check": check, "case": j}));
+        ctx.note_current(&serde_json::json!({"check": check, "input": j}));
         let (r, mut out, poisoned) = run_isolated(&test, &v);
         if poisoned {
             // known finding c14.panic-count-stuck-after-abandoned-unwind: whatever ran on that thread after the
